@@ -93,3 +93,107 @@ def stream_case(nev):
 
 def cases(tier):
     return [stream_case(3 if tier == "quick" else 4)]
+
+
+# ---------------------------------------------------------------------------------------------------------------
+# interleavings (engine E2): the transport thread delivering stderr data while a user thread switches combining on
+
+def _world():
+    import props.C22 as C22
+    from cfa.compile import world_from, Obj, Ref
+    c, t = C22._real_channel(1)
+    W = world_from({"chan": c}, {("chan", "combine_stderr"), ("chan.in_stderr_buffer", "_buffer")},
+                   modules=("paramiko.channel", "paramiko.buffered_pipe"))
+    W["wire"] = Obj("wire", "wire")
+    W["chan"].fields["transport"] = Ref("wire")
+    return W
+
+
+def _scenario(name, nmsgs, togglers=1):
+    """T1 (and T3): set_combine_stderr(True); T2 = the transport thread: _feed_extended for nmsgs stderr messages.
+    Byte ranges carry their origin: what is already buffered on stderr sits at positions 0..k-1 of the stderr
+    stream, the message arriving during the switch at 100.., the next one at 200.. ; the stdout buffer records
+    whether a chunk was appended after a chunk of later origin."""
+    import props.C22 as C22
+    import paramiko.channel as CH
+    import paramiko.buffered_pipe as BP
+    from cfa.bmc import IntVal, V, Int
+    from cfa.driver import Scenario
+    P = {"msg%d" % i: V(i=IntVal(1), bs=IntVal(100 * (i + 1)), bl=Int("p_len%d" % i)) for i in range(nmsgs)}
+    threads = [("T1", [("combine", "chan", "set_combine_stderr", {"combine": ("const", 1)})]),
+               ("T2", [("feedx%d" % i, "chan", "_feed_extended", {"m": ("sym", "msg%d" % i)}) for i in range(nmsgs)])]
+    if togglers == 2:
+        threads.append(("T3", [("combine2", "chan", "set_combine_stderr", {"combine": ("const", 1)})]))
+    ERR, OUT = "chan.in_stderr_buffer.buffer", "chan.in_buffer.buffer"
+
+    def init(s):
+        e = s[("tail", ERR)]
+        cs = [e >= 0, e <= 2, z3.Not(s[("fld", "chan", "combine_stderr")])]
+        for v in P.values():
+            cs += [v.bl >= 1, v.bl <= 2]
+        return cs
+
+    def bad(m, s, t):
+        left_on_stderr = s[("tail", ERR)] - s[("head", ERR)] > 0
+        return z3.And(m.all_done(s), z3.Or(left_on_stderr, s[("ooo", OUT)]))
+
+    def make_real(params, init_, clock):
+        from paramiko.message import Message
+        c, tr = C22._real_channel(1)
+        k = int(init_.get("tail(%s)" % ERR, 0))
+        lens = [params["msg%d" % i]["len"] for i in range(nmsgs)]
+        if k:
+            c.in_stderr_buffer.feed(b"o" * k)
+
+        def toggle():
+            return c.set_combine_stderr(True)
+
+        def deliver():
+            for i, n in enumerate(lens):
+                m = Message()
+                m.add_int(1)
+                m.add_string(bytes([ord("A") + i]) * n)
+                m.rewind()
+                c._feed_extended(m)
+        fns = {"T1": toggle, "T2": deliver}
+        if togglers == 2:
+            fns["T3"] = toggle
+        return {"fns": fns, "chan": c, "want": b"o" * k + b"".join(bytes([ord("A") + i]) * n for i, n in enumerate(lens))}
+
+    def observe(real, s):
+        c = real["chan"]
+        out, err = c.in_buffer.empty(), c.in_stderr_buffer.empty()
+        return {"stdout": out, "stderr": err, "stderr_data_in_peer_order": real["want"],
+                "violated": out != real["want"] or err != b"", "completed": getattr(s, "completed", None)}
+    sc = Scenario(name, _world(), threads, bad, 0, params=P, init_extra=init, files=[CH.__file__, BP.__file__],
+                  make_real=make_real, observe=observe)
+    sc.loop_allowance_iterations = 0
+    # lock-region reduction for the two BufferedPipe locks only: every access to a pipe's buffer happens under its own
+    # lock (that data-race freedom is C26's subject), so a feed()/empty() in progress commutes with the other threads'
+    # steps.  The channel lock is NOT reduced: what is and is not done under it is exactly what is being checked.
+    sc.atomic_locks = ("chan.in_buffer.lock", "chan.in_stderr_buffer.lock")
+    return sc
+
+
+def scenarios(tier):
+    out = [_scenario("set_combine_stderr(True)||_feed_extended", 1),
+           _scenario("set_combine_stderr(True)||_feed_extended;_feed_extended", 2)]
+    if tier == "thorough":
+        out.append(_scenario("set_combine_stderr(True)||_feed_extended||set_combine_stderr(True)", 1, togglers=2))
+    return out
+
+
+def run_scenarios(tier, seed):
+    import paramiko.channel as CH
+    import paramiko.buffered_pipe as BP
+    from cfa.driver import run_property
+    fns = [CH.Channel.set_combine_stderr, CH.Channel._feed_extended, CH.Channel._feed, CH.Channel._check_add_window,
+           BP.BufferedPipe.feed, BP.BufferedPipe.empty]
+    return run_property(PROPERTY, scenarios(tier), tier, seed, fns,
+                        ["incoming message: (type code, byte range); byte ranges carry their origin position; Lock/Condition/"
+                         "Event/array models as for C24/C26"],
+                        ["one channel with 0..2 bytes already buffered on stderr, combining off; a user thread switches combining on "
+                         "while the transport thread delivers one or two stderr messages of 1..2 bytes",
+                         "checked at quiescence: nothing is left on the stderr buffer and the stdout buffer received the stderr "
+                         "chunks in the peer's order"],
+                        "Scenarios: Channel.set_combine_stderr(True) against Channel._feed_extended.", merge=True)
